@@ -28,8 +28,9 @@ CLAIMED = {
                  "intervals are non-empty, symmetric, contiguous, increasing (hence disjoint) and cover exactly [-max_delta, max_delta], with the "
                  "documented numbers of axial positions; (i) the float block of initialise_ring_diff_arrays (three statement kernels composed, per "
                  "ring spacing of the predefined scanners, num_rings <= 128, axial positions < 256): ring1+ring2 of an axial position equals "
-                 "2*ax/inc + ax_pos_num_offset exactly - the reader contract the ring-pair kernels use. Not decided: the ring_diff_to_segment_num "
-                 "fill loop (assumed reader contract), ProjDataInfoGE, axial position inside a truncated axial range, Blocks/Generic classes."),
+                 "2*ax/inc + ax_pos_num_offset exactly - the reader contract the ring-pair kernels use. (j) the block that fills ring_diff_to_segment_num (statement kernel, two loop contracts): the table covers every ring "
+                 "difference a reader may ask for, writes stay inside it, an entry is the first segment whose interval contains the ring difference or "
+                 "max_segment+1 - with disjoint intervals exactly the reader contract (lemma). Not decided: ProjDataInfoGE, axial position inside a truncated axial range, Blocks/Generic classes."),
         "note": ("trusted: cbmc 6.11.0 + kissat/MiniSat; lookup tables are projected onto one nondeterministic ghost cell; readers of a table see the "
                  "filler's postcondition; segments' ring-difference intervals disjoint and increasing with the segment number (established by the constructors, assumed); "
                  "per-segment values |.|<2^15; N, view mashing, TOF mashing factor and ring-pair count are swept as constants"),
